@@ -206,6 +206,10 @@ func runC09(c *Ctx) {
 			c.Pass(name, fn.Pos(), "lifecycle: "+r)
 			continue
 		}
+		if lc := lifecycleHelper(w, t, fn); lc != "" {
+			c.Pass(name, fn.Pos(), "helper called only from lifecycle function "+lc)
+			continue
+		}
 		appends := callsAsInstrs(callsTo(fn, t.append_))
 		byKey := map[string][]c09Mutation{}
 		for _, m := range muts {
@@ -786,6 +790,76 @@ func c09Bookkeeping(c *Ctx, t *c09Tables) {
 
 // truncIndexSearchesField: the index derives from sort.Search(len(st.F), func{ st.F[i] ... }).
 func truncIndexSearchesField(idx ssa.Value, f, other *types.Var) (bool, string) {
+	// the index may have crossed a function boundary (the search in one half of a split function, the
+	// truncation in the other): follow a parameter to the arguments of all callers and a call result into
+	// the callee's returns, a few steps deep
+	var lastWhy string
+	for _, origin := range crossOrigins(theWorld, idx, 3) {
+		ok, why := truncIndexSearchesFieldLocal(origin, f, other)
+		if ok {
+			return true, ""
+		}
+		lastWhy = why
+	}
+	return false, lastWhy
+}
+
+// crossOrigins returns v and the values it stands for across function
+// boundaries: for a parameter, the corresponding argument at every static call
+// site (parameters bound); for a (component of a) call result of a repository
+// function, what that function returns there.
+func crossOrigins(w *World, v ssa.Value, depth int) []ssa.Value {
+	out := []ssa.Value{v}
+	if depth == 0 || w == nil {
+		return out
+	}
+	switch x := stripConvNoBind(v).(type) {
+	case *ssa.Parameter:
+		fn := x.Parent()
+		idx := -1
+		for i, p := range fn.Params {
+			if p == x {
+				idx = i
+			}
+		}
+		for _, ci := range w.Callers(fn) {
+			if args := ci.Common().Args; idx >= 0 && idx < len(args) {
+				out = append(out, crossOrigins(w, args[idx], depth-1)...)
+			}
+		}
+	case *ssa.Extract:
+		if call, ok := x.Tuple.(*ssa.Call); ok {
+			if g := call.Call.StaticCallee(); g != nil && g.Blocks != nil && g.Pkg != nil && strings.HasPrefix(g.Pkg.Pkg.Path(), modPath) {
+				for i, prm := range g.Params {
+					if i < len(call.Call.Args) {
+						paramBind[prm] = call.Call.Args[i]
+					}
+				}
+				for _, b := range g.Blocks {
+					if r, isRet := b.Instrs[len(b.Instrs)-1].(*ssa.Return); isRet && b != g.Recover && x.Index < len(r.Results) {
+						out = append(out, crossOrigins(w, r.Results[x.Index], depth-1)...)
+					}
+				}
+			}
+		}
+	case *ssa.Call:
+		if g := x.Call.StaticCallee(); g != nil && g.Blocks != nil && g.Pkg != nil && strings.HasPrefix(g.Pkg.Pkg.Path(), modPath) && g.Signature.Results().Len() == 1 {
+			for i, prm := range g.Params {
+				if i < len(x.Call.Args) {
+					paramBind[prm] = x.Call.Args[i]
+				}
+			}
+			for _, b := range g.Blocks {
+				if r, isRet := b.Instrs[len(b.Instrs)-1].(*ssa.Return); isRet && b != g.Recover {
+					out = append(out, crossOrigins(w, r.Results[0], depth-1)...)
+				}
+			}
+		}
+	}
+	return out
+}
+
+func truncIndexSearchesFieldLocal(idx ssa.Value, f, other *types.Var) (bool, string) {
 	var search *ssa.Call
 	backward(idx, func(v ssa.Value) bool {
 		if c, ok := v.(*ssa.Call); ok {
@@ -909,4 +983,33 @@ func countCallersByName(w *World, name string) int {
 		}
 	}
 	return n
+}
+
+// lifecycleHelper: fn is unexported and every static caller in the repository is
+// a tabled lifecycle function (a part of Copy / Reset / commit split off into a
+// helper). Returns the caller's name, or "".
+func lifecycleHelper(w *World, t *c09Tables, fn *ssa.Function) string {
+	if fn.Parent() != nil {
+		fn = fn.Parent()
+	}
+	if o := fn.Object(); o == nil || o.Exported() {
+		return ""
+	}
+	cs := w.Callers(fn)
+	if len(cs) == 0 {
+		return ""
+	}
+	name := ""
+	for _, ci := range cs {
+		caller := ci.Parent()
+		if strings.HasSuffix(w.fileOf(caller.Pos()), "_test.go") {
+			continue
+		}
+		n := outerName(fname(caller))
+		if _, ok := t.lifecycle[n]; !ok {
+			return ""
+		}
+		name = n
+	}
+	return name
 }
